@@ -868,10 +868,10 @@ func init() {
 		fr.i.syncDepth--
 		return nil
 	}
-	for _, n := range []string{"(*sync.Mutex).Lock", "(*sync.RWMutex).Lock", "(*sync.RWMutex).RLock"} {
+	for _, n := range []string{"(*sync.Mutex).Lock", "(*sync.RWMutex).Lock"} {
 		externals[n] = func(fr *frame, a []value) value { fr.i.syncDepth++; return nil }
 	}
-	for _, n := range []string{"(*sync.Mutex).Unlock", "(*sync.RWMutex).Unlock", "(*sync.RWMutex).RUnlock"} {
+	for _, n := range []string{"(*sync.Mutex).Unlock", "(*sync.RWMutex).Unlock"} {
 		externals[n] = func(fr *frame, a []value) value {
 			if fr.i.syncDepth > 0 {
 				fr.i.syncDepth--
@@ -879,6 +879,10 @@ func init() {
 			return nil
 		}
 	}
+	// a read lock admits other readers: it licenses reads, not writes (a write to shared memory under
+	// RLock alone is reported by the footprint monitor like any unsynchronised write)
+	externals["(*sync.RWMutex).RLock"] = func(fr *frame, a []value) value { return nil }
+	externals["(*sync.RWMutex).RUnlock"] = func(fr *frame, a []value) value { return nil }
 	// sync.Map: the struct's last field is replaced by an *omap on first use.
 	smap := func(fr *frame, recv value, create bool) *omap {
 		cell := recv.(*value)
